@@ -518,6 +518,107 @@ func runC20(c *Ctx) {
 				}
 				return "T2"
 			}
+			// slices.BinarySearchFunc(u.q, t, cmp) is taken by its documented contract (on a slice sorted by cmp:
+			// the position of the target, or where it would be inserted, and whether it was found); what is
+			// decided here is that cmp orders a bucket by its first element's timestamp against the target
+			var bsCalls []*ssa.Call
+			for _, h := range withAnon(addValue) {
+				instrs(h, func(in ssa.Instruction) {
+					if call, ok := in.(*ssa.Call); ok {
+						if g := staticCallee(&call.Call); g != nil && pkgPathOf(g) == "slices" && strings.HasPrefix(g.Name(), "BinarySearchFunc") && len(call.Call.Args) == 3 && loadOfField(call.Call.Args[0], fQ) {
+							bsCalls = append(bsCalls, call)
+						}
+					}
+				})
+			}
+			isBS := func(v ssa.Value) bool {
+				for _, b := range bsCalls {
+					if v == ssa.Value(b) {
+						return true
+					}
+				}
+				return false
+			}
+			for _, bs := range bsCalls {
+				var cf *ssa.Function
+				if mc, _ := closureArg(bs.Call.Args[2]); mc != nil {
+					cf = mc.Fn.(*ssa.Function)
+				} else if f, ok := bs.Call.Args[2].(*ssa.Function); ok && f.Blocks != nil {
+					cf = f
+				}
+				if cf == nil {
+					c.Unknown("C20.order", fnName(addValue), "comparison function of slices.BinarySearchFunc", P.Pos(bs.Pos()), "not a function of this package: "+Expr(bs.Call.Args[2]))
+					continue
+				}
+				// the target handed to the search is the new value's timestamp
+				tgtOK := false
+				{
+					e := &PPA{}
+					st := newState()
+					if tsClass(e, st, RV{nil, bs.Call.Args[1]}) == "T" {
+						tgtOK = true
+					}
+				}
+				c.Check(tgtOK, "C20.order", fnName(addValue), "slices.BinarySearchFunc searches for the new value's timestamp", P.Pos(bs.Pos()), "target: "+Expr(bs.Call.Args[1]))
+				cmpClass := func(e *PPA, st *State, rv RV) string {
+					r := e.Resolve(st, rv)
+					if p, ok := r.V.(*ssa.Parameter); ok && p.Parent() == cf && len(cf.Params) == 2 && p == cf.Params[1] {
+						return "TARGET"
+					}
+					u, ok := r.V.(*ssa.UnOp)
+					if !ok || u.Op != token.MUL {
+						return ""
+					}
+					fa, ok := u.X.(*ssa.FieldAddr)
+					if !ok || vname(fieldOf(fa)) != "Timestamp" || !isNamed(fa.X.Type(), "testing/fake/proto", "Timestamp") {
+						return ""
+					}
+					// <bucket>[0].v.Timestamp.Timestamp
+					cur := RV{r.F, fa.X}
+					for i := 0; i < 24; i++ {
+						cur = e.Resolve(st, cur)
+						switch x := cur.V.(type) {
+						case *ssa.UnOp:
+							cur = RV{cur.F, x.X}
+							continue
+						case *ssa.FieldAddr:
+							cur = RV{cur.F, x.X}
+							continue
+						case *ssa.IndexAddr:
+							if k, ok := constInt(x.Index); ok && k == 0 && len(cf.Params) == 2 && e.Resolve(st, RV{cur.F, x.X}).V == ssa.Value(cf.Params[0]) {
+								return "ELEM"
+							}
+						}
+						break
+					}
+					return ""
+				}
+				for _, rel := range []int{-1, 0, 1} {
+					at := &Atoms{Class: cmpClass, Rel: map[[2]string]int{{"ELEM", "TARGET"}: rel}}
+					e := &PPA{Cond: at.Cond}
+					e.Run(cf)
+					c.Paths += len(e.Paths)
+					n := 0
+					for i := range e.Paths {
+						p := &e.Paths[i]
+						if p.End != "return" || len(p.Rets) != 1 {
+							continue
+						}
+						n++
+						st := newState()
+						got, known := at.intOf(e, st, p.Rets[0], 0)
+						sign := 0
+						switch {
+						case got < 0:
+							sign = -1
+						case got > 0:
+							sign = 1
+						}
+						c.Check(known && sign == rel, "C20.order", fnName(cf), fmt.Sprintf("comparison function: bucket's first timestamp vs target, order %+d", rel), P.Pos(cf.Pos()), fmt.Sprintf("returns %s (sign known=%v, %+d)", retString(p.Rets), known, sign))
+					}
+					c.Check(n == 1, "C20.order", fnName(cf), fmt.Sprintf("comparison function decided for order %+d", rel), P.Pos(cf.Pos()), fmt.Sprintf("%d paths", n))
+				}
+			}
 			type pos struct {
 				at    int64 // the new timestamp lies before bucket `at` (== qlen: after all)
 				equal bool  // ... or equals the timestamp of bucket `at`
@@ -547,9 +648,15 @@ func runC20(c *Ctx) {
 					hi := []int64{}
 					e := &PPA{Cond: func(e *PPA, st *State, rv RV) (bool, bool) {
 						// the latest-timestamp bookkeeping is irrelevant here; nil timestamp: present
+						if ex, ok := rv.V.(*ssa.Extract); ok && ex.Index == 1 && isBS(ex.Tuple) {
+							return sc.equal, true
+						}
 						return at.Cond(e, st, rv)
 					}, MaxVisits: 6,
 						IntHook: func(e *PPA, st *State, rv RV) (int64, bool) {
+							if ex, ok := rv.V.(*ssa.Extract); ok && ex.Index == 0 && isBS(ex.Tuple) {
+								return sc.at, true
+							}
 							if call, ok := rv.V.(*ssa.Call); ok {
 								if la, ok := lenArg(call); ok && loadOfField(e.Resolve(st, RV{rv.F, la}).V, fQ) {
 									return qlen, true
